@@ -944,6 +944,89 @@ def gen_combinators(rng, tier, add, pools):
             add("comb", "%s %s %s" % (rng.choice(["pe", "pe", "pa"]), spec, hx(text)))
 
 
+
+# facet inheritance through derivation steps that declare NO facet, for every variety (atomic, list, union) and every
+# facet kind: base -> +facets -> (nothing) -> (nothing), a facet-less step in the middle of a chain, and lists / unions
+# over such a type.  The instance is typed with the LAST type.  Oracles: the Spec (conjunction of all facets on the
+# chain) where the type has one, and -- for every chain -- the verdict of the same chain without the empty steps.
+FACETLESS = [
+    # (base, [facet groups], values)
+    ("U(int+boolean)", ["enum=1|false"], ["1", "01", "true", "false", "0", "2", "x", "xyz"]),
+    ("U(decimal+token)", ["enum=1.0|a"], ["1", "1.00", "a", "b", "1.5", "2"]),
+    ("U(boolean+token)", ["enum=true|x"], ["true", "1", "x", "y", "false"]),
+    ("U(L(int)+boolean)", ["enum=1~2|true"], ["1 2", "01 2", "1", "2 1", "true", "false", "1 2 3"]),
+    ("U(int+token)", ["pattern=(1|2|a)*"], ["12", "a", "b", "1b", ""]),
+    ("L(int)", ["enum=1~2|3"], ["1 2", "01 02", "3", "1", "2 1", "1 2 3", ""]),
+    ("L(int)", ["length=2"], ["1 2", "1", "1 2 3", ""]),
+    ("L(decimal)", ["minLength=1;maxLength=2"], ["", "1", "1.0 2", "1 2 3"]),
+    ("L(boolean)", ["maxLength=3", "minLength=2"], ["1", "1 0", "true false 1", "1 0 1 0"]),
+    ("L(U(int+boolean))", ["enum=1~true|0", "length=1"], ["1 true", "0", "00", "true", "1"]),
+    ("L(token)", ["pattern=a(.a)*"], ["a", "a a", "a b", "b"]),
+    ("decimal", ["totalDigits=3;fractionDigits=1"], ["12.5", "123.4", "1.25", "999", "1000", "0.10"]),
+    ("decimal", ["enum=1.5|2"], ["1.50", "2.0", "2.5", "+1.5"]),
+    ("decimal", ["minInclusive=-5", "maxExclusive=7.5"], ["-5", "-5.1", "7.5", "7.49", "0"]),
+    ("int", ["minExclusive=3;maxInclusive=9"], ["3", "4", "9", "10", "+09"]),
+    ("integer", ["enum=1|2|3", "enum=2|3"], ["1", "2", "03", "4"]),
+    ("positiveInteger", ["maxInclusive=4"], ["0", "1", "4", "5"]),
+    ("unsignedByte", ["minInclusive=250"], ["249", "250", "255", "256"]),
+    ("double", ["maxInclusive=2.5"], ["2.5", "2.50", "2.51", "1"]),
+    ("double", ["enum=1|2.5"], ["1.0", "2.50", "2"]),
+    ("boolean", ["pattern=true|false"], ["true", "1", "false", "0"]),
+    ("string", ["length=3"], ["abc", "ab", "abcd", " a "]),
+    ("string", ["whiteSpace=collapse", "length=3"], ["abc", " abc ", "a  b", "a b", "abcd"]),
+    ("string", ["whiteSpace=replace", "enum=a~b"], ["a b", "a\tb", "a  b", "ab"]),
+    ("token", ["minLength=2;maxLength=3"], ["a", "ab", "abc", "abcd", " ab "]),
+    ("token", ["enum=a|b~c"], ["a", "b c", " b  c ", "c"]),
+    ("token", ["pattern=a+b"], ["ab", "aab", "b", "abb"]),
+    ("NMTOKEN", ["enum=x|y"], ["x", "y", "z"]),
+    ("anyURI", ["maxLength=5"], ["a:b", "http://x/y"]),
+    ("hexBinary", ["length=2"], ["0a0B", "0a", "0a0b0c", "0A0b"]),
+    ("hexBinary", ["enum=0a0b"], ["0a0b", "0a", "0c0d"]),
+    ("base64Binary", ["maxLength=2"], ["AAA=", "AAAA", "AA=="]),
+    ("dateTime", ["minInclusive=2000-01-01T00-00-00Z"], []),     # (placeholder removed below: ':' is not usable here)
+    ("date", ["enum=2000-01-01|2000-02-29"], ["2000-01-01", "2000-02-29", "2000-03-01"]),
+    ("gYear", ["maxInclusive=2000"], ["1999", "2000", "2001"]),
+    ("duration", ["minInclusive=P1D"], ["PT23H", "P1D", "PT24H", "P2D"]),
+]
+
+
+def gen_facetless(rng, tier, add, pools):
+    pairs = pools.setdefault("facetless", [])
+    for base, groups, vals in FACETLESS:
+        if not vals:
+            continue
+        plain = base + "".join("[%s]" % g for g in groups)
+        variants = [plain + "[]", plain + "[][]"]
+        if len(groups) > 1:
+            variants.append(base + "[%s][]" % groups[0] + "".join("[%s]" % g for g in groups[1:]))
+        else:
+            variants.append(base + "[]" + "[%s]" % groups[0])           # the empty step first: nothing to inherit yet
+        ok_in_r = all(ch not in "".join(groups) for ch in ":+)")
+        for v in vals:
+            h = hx(v)
+            op = "pe" if ("whiteSpace" in plain or rng.random() < 0.75) else "pa"
+            add("facetless", "%s %s %s" % (op, plain, h))
+            for sp in variants:
+                add("facetless", "%s %s %s" % (op, sp, h))
+                pairs.append(("%s %s %s" % (op, sp, h), "%s %s %s" % (op, plain, h)))
+        # lists and unions whose item / member type is the facet-less re-derivation
+        if ok_in_r and not base.startswith("L(") and "whiteSpace" not in plain and base not in ("string",):
+            r0 = "R(%s%s)" % (base, "".join(":" + g for g in groups))
+            for extra in (":", "::"):
+                r1 = "R(%s%s%s)" % (base, "".join(":" + g for g in groups), extra)
+                for outer in ("L(%s)", "U(%s+boolean)"):
+                    if outer.startswith("L(") and ("L(" in base):
+                        continue
+                    for v in vals:
+                        if " " in v and outer.startswith("L("):
+                            continue
+                        texts = [v] if not outer.startswith("L(") else [v, v + " " + vals[0], vals[0] + "  " + v]
+                        for tx in texts:
+                            a, b = "pe %s %s" % (outer % r1, hx(tx)), "pe %s %s" % (outer % r0, hx(tx))
+                            add("facetless", b)
+                            add("facetless", a)
+                            pairs.append((a, b))
+
 # ------------------------------------------------------------------------------------------------------------
 def gen_cases(rng, tier):
     cases = []
@@ -968,6 +1051,7 @@ def gen_cases(rng, tier):
     gen_list_enum(rng, tier, add, pools)
     gen_canon_boundaries(rng, tier, add, pools)
     gen_combinators(rng, tier, add, pools)
+    gen_facetless(rng, tier, add, pools)
     return cases, pools
 
 
@@ -1375,6 +1459,16 @@ def consistency(byreq, pools):
                                                                         "cmp dateTime %s %s" % (x, z)], "expected %d" % want))
     stats["dateTime_pool"] = len(pool)
     stats["dateTime_triples"] = trip
+    # (d) a derivation step that declares no facet changes nothing: same verdict as the chain without it
+    nfl = 0
+    for with_empty, plain in pools.get("facetless", []):
+        x, y = byreq.get(with_empty), byreq.get(plain)
+        if x in ("valid", "invalid") and y in ("valid", "invalid"):
+            nfl += 1
+            if x != y:
+                out.append(("a restriction step without facets changed the verdict (facets of the base are not inherited)",
+                            [with_empty, plain], "%s vs %s" % (x, y)))
+    stats["facetless_pairs"] = nfl
     last_axiom_stats.clear()
     last_axiom_stats.update(stats)
     return out[:20]
